@@ -53,12 +53,81 @@ def self_param(F: Facts, qual: str) -> str:
 
 
 def op_field_kinds(F: Facts, cls: str) -> Dict[str, str]:
-    """Dataclass fields of an Op class -> coarse kind from the annotation:
-    'op' (an Op), 'oplist' (list of Op), 'pairlist' (list of tuples), 'str', 'list', 'any'."""
+    """Dataclass fields of an Op class -> coarse kind: 'op' (an Op), 'oplist' (list of Op), 'pairlist' (list of
+    tuples of Op), 'str', 'list', 'any'.  The annotation is refined by what the grammar actions actually store in
+    the field (``args: list`` holds a list of Op nodes)."""
     out: Dict[str, str] = {}
     for n, ann, d, q in F.all_fields(cls):
         out[n] = annotation_kind(F, F.cls(q).module, ann)
+    from . import ctx as _C, actions as _A
+    T = _C.templates(F)
+    seen: Dict[str, set] = {}
+    for t in T.all():
+        terms = [t.result] + [freeze(e.value) for e in t.events if e.kind == 'store_attr'] + \
+                [freeze(e.args) for e in t.events if e.kind == 'call']
+        for term in terms:
+            for c, flds in _A.new_nodes(term):
+                if c != cls:
+                    continue
+                for fn, v in flds:
+                    k = _value_kind(F, T, v)
+                    if k:
+                        seen.setdefault(fn, set()).add(k)
+    for fn, ks in seen.items():
+        ks = ks - {'empty'}
+        if len(ks) == 1:
+            k = next(iter(ks))
+            if k in ('op', 'oplist', 'pairlist'):
+                out[fn] = k
     return out
+
+
+def _elem_kind(F, T, x, _depth=0) -> Optional[str]:
+    if not isinstance(x, tuple) or not x:
+        return None
+    if x[0] == 'sym':
+        return 'op' if len(x) > 4 and 'op' in x[4] else None
+    if x[0] == 'new':
+        return 'op' if F.is_subclass(x[1], ROOT) else None
+    if x[0] == 'tuple':
+        return 'pair'
+    if x[0] == 'star':
+        inner = x[1]
+        if isinstance(inner, tuple) and inner and inner[0] == 'sub':
+            inner = inner[1]
+        if isinstance(inner, tuple) and inner and inner[0] == 'symlist' and _depth < 4:
+            ks = set()
+            for p in T.grammar.by_lhs(inner[2]):
+                for t in T.of(p):
+                    if t.raises is None and isinstance(t.result, tuple) and t.result and t.result[0] == 'list':
+                        for y in t.result[1:]:
+                            if isinstance(y, tuple) and y and y[0] == 'star' and y[1][:1] == ('symlist',) and y[1][2] == inner[2]:
+                                continue
+                            k = _elem_kind(F, T, y, _depth + 1)
+                            if k:
+                                ks.add(k)
+            if len(ks) == 1:
+                return next(iter(ks))
+    return None
+
+
+def _value_kind(F, T, v) -> Optional[str]:
+    if not isinstance(v, tuple) or not v:
+        return None
+    if v[0] in ('sym', 'new'):
+        return _elem_kind(F, T, v)
+    if v[0] == 'symlist':
+        k = _elem_kind(F, T, ('star', v))
+        return {'op': 'oplist', 'pair': 'pairlist'}.get(k)
+    if v[0] == 'list':
+        if len(v) == 1:
+            return 'empty'
+        ks = {_elem_kind(F, T, x) for x in v[1:]}
+        if ks == {'op'}:
+            return 'oplist'
+        if ks == {'pair'}:
+            return 'pairlist'
+    return None
 
 
 def annotation_kind(F: Facts, module, ann: Optional[ast.AST]) -> str:
